@@ -188,7 +188,9 @@ class GroupGen(Pool):
         if c < 55:      # the consumer's own history
             a = [b'XREADGROUP', b'GROUP', g, cn]
             if r.random() < 0.3:
-                a += [b'COUNT', b'2']
+                a += [b'COUNT', r.choice([b'1', b'2'])]
+            if r.random() < 0.35:
+                a.append(r.choice([b'NOACK', b'noack']))       # without meaning for a read of the consumer's own history
             return a + [b'STREAMS', k, r.choice([b'0-0', self.sid(k)])]
         if c < 64:
             return [b'XACK', k, g] + [self.sid(k) for _ in range(r.randrange(1, 4))]
@@ -260,6 +262,7 @@ class GroupStoryGen(Pool):
         self.next = self._next
         self.n = 0
         self.top = 0
+        self.history = rnd.random() < 0.5      # half of the stories read a consumer's own history (known defects live there)
 
     def anid(self):
         return b'%d-0' % self.rnd.randrange(1, self.top + 2)
@@ -294,6 +297,13 @@ class GroupStoryGen(Pool):
             return [b'XPENDING', k, g, self.anid(), b'+', r.choice([b'1', b'2', b'10']), cn]
         if c < 96:
             return [b'XREADGROUP', b'GROUP', g, cn, b'NOACK', b'COUNT', b'1', b'STREAMS', k, b'>']
+        if c < 97 and self.history:
+            a = [b'XREADGROUP', b'GROUP', g, cn]
+            if r.random() < 0.5:
+                a += [b'COUNT', b'1']
+            if r.random() < 0.6:
+                a.append(b'NOACK')
+            return a + [b'STREAMS', k, r.choice([b'0-0', self.anid()])]
         if c < 98:
             return [b'XINFO', b'CONSUMERS', k, g]
         return [b'XPENDING', k, g, b'-', self.anid(), b'10']
